@@ -55,6 +55,12 @@ def units(tier, seed):
                 if op['op'] == 'del' and 'a' not in prior:
                     continue
                 out.append((cid, pi, _realkeys(prior), oi if not tup else 100 + oi, op))
+    # a history with an EARLIER crash: a removal of 'a' was interrupted right after the entry had been moved out of sight,
+    # then 'a' was stored again; now every crash point of another removal / overwrite of 'a'
+    for cid in cids:
+        if cid.startswith('dir'):
+            for oi, op in enumerate([{'op': 'del', 'key': 'a'}, {'op': 'pop', 'key': 'a'}, {'op': 'clear'}, {'op': 'set', 'key': 'a', 'value': 'new'}]):
+                out.append((cid, 'dirty', {'a': 'old', 'b': 'keep'}, 200 + oi, op))
     return out
 
 
@@ -146,11 +152,30 @@ def _k(k):
     return eval(k[1:], {}) if isinstance(k, str) and k.startswith('T(') else (tuple(k) if isinstance(k, list) else k)
 
 
-def _prepare(cid, prior):
+def _prepare(cid, prior, dirty=False):
     root = AR.new_root()
     a = AR.open_archive(cid, root)
     for k, v in prior.items():
         a[_k(k)] = v
+    if dirty:
+        # kill a `del a` immediately after its first effect (the rename out of sight), then store 'a' again
+        del a
+        probe = _copy(root)
+        try:
+            p = child(cid, probe, {'op': 'del', 'key': 'a'}, -1)
+            line = [l for l in p.stdout.splitlines() if l.startswith('EFFECTS ')]
+            effects = json.loads(line[0][8:]) if line else []
+        finally:
+            AR.drop_root(probe)
+        idx = None
+        for i, e in enumerate(effects):
+            if e.startswith('rename') and i + 1 < len(effects):
+                idx = i + 1
+                break
+        if idx is not None:
+            child(cid, root, {'op': 'del', 'key': 'a'}, idx)
+        a = AR.open_archive(cid, root)
+        a['a'] = prior['a']
     del a
     return root
 
@@ -168,7 +193,7 @@ def run_unit(unit):
     seen = set()
     base = None
     try:
-        base = _prepare(cid, prior)
+        base = _prepare(cid, prior, dirty=(pi == 'dirty'))
         new, touched = expected_new(prior, op)
         # 1. the effect sequence of the uninterrupted operation
         r0 = _copy(base)
@@ -222,7 +247,7 @@ def replay(w):
     if 'kill' not in w:
         return False, 'no replayable crash point recorded: %r' % (w,)
     cid, pi, prior, oi, op = w['unit']
-    base = _prepare(cid, prior)
+    base = _prepare(cid, prior, dirty=(pi == 'dirty'))
     try:
         new, touched = expected_new(prior, op)
         p = child(cid, base, op, w['kill'], w['half'])
